@@ -455,7 +455,8 @@ Definition trle_tile (cap : Z) (v : cpv) (x y w h : Z) (t : trst) : M trst :=
     bs <- rd n ;;
     (if negb (realbpp v =? cbpp v) then (match v with CP24 | CP24Up => ret tt | _ => upd_st set_taint end) else ret tt) ;;;
     let pal := cpix_list v (bs ++ [0; 0; 0; 0]) (Z.to_nat (type - 128)) in
-    acc <- trle_palrle (Z.to_nat (w * h)) cap (w * h) pal [] ((type - 128) * rb) ;;
+    s0 <- get_st ;;      (* d9a5962: every run, the first one included, is read to the start of raw_buffer *)
+    acc <- trle_palrle (Z.to_nat (w * h)) cap (w * h) pal [] (if fixed s0 4 then 0 else (type - 128) * rb) ;;
     paint_seq 64 x y w (rev acc) ;;;
     ret (mktr type pal (tr_bits t) (tr_color t))
   else failM.
